@@ -414,8 +414,20 @@ func cmdCheck(args []string) {
 	assumptions = append(assumptions, ps.Assumptions...)
 	assumptions = append(assumptions, links...)
 	absSet := map[string]bool{}
+	provedElsewhere := propsVerifying(verifDir)
 	for _, g := range gens {
 		for _, a := range g.assumptions {
+			if k, ok := strings.CutPrefix(a, "callee contract: "); ok {
+				// a callee is used through its contract only: say where that contract is proved
+				switch {
+				case verifiedKeys[k]:
+					continue // proved in this very run
+				case len(provedElsewhere[k]) > 0:
+					a = "callee contract used, proved by the check of " + strings.Join(provedElsewhere[k], ",") + " (not re-proved in this run): " + k
+				default:
+					a = "ASSUMED callee contract (its body is not verified by any check): " + k
+				}
+			}
 			assumptions = appendUnique(assumptions, a)
 		}
 		for _, a := range g.abstracted {
@@ -645,4 +657,31 @@ func statusWhy(o *Obligation) string {
 		return "solver answered " + o.Result.Status + "; quantified goals give no model"
 	}
 	return o.Result.Status
+}
+
+
+// propsVerifying: for every contract key, the properties whose check verifies it.
+func propsVerifying(verifDir string) map[string][]string {
+	out := map[string][]string{}
+	files, _ := filepath.Glob(filepath.Join(verifDir, "props", "*.json"))
+	sort.Strings(files)
+	for _, f := range files {
+		b, err := os.ReadFile(f)
+		if err != nil {
+			continue
+		}
+		var ps struct {
+			ID        string `json:"id"`
+			Functions []struct {
+				Key string `json:"key"`
+			} `json:"functions"`
+		}
+		if json.Unmarshal(b, &ps) != nil {
+			continue
+		}
+		for _, fn := range ps.Functions {
+			out[fn.Key] = append(out[fn.Key], ps.ID)
+		}
+	}
+	return out
 }
